@@ -28,10 +28,16 @@ TEXT = {
               'extracted head-update model evaluated in the analyser + must-hold dataflow for the step precondition + sibling skeleton comparison'),
     'C12': _t('Decides: K1 no recorded feedback is dropped, K2 OK exclusivity, K3 handlers report, K4 answer/reference roles and message polarity, K5 minimal counterexample, K6 same bound, K7 state-limit polarity. Not decided: completeness of each structural criterion.',
               'CFG reachability/kill analysis of feedback accumulators + role taint from notebook templates + extracted integer model'),
+    'C13': _t('Decides: along each chain tag -> generator -> printer -> template variable -> checker parameter -> parser, commands/arity resolve, printed keywords, state-name formats (regular-language inclusion), operator tokens, symbol class and CFG epsilon spelling are inside what the reader accepts. Not decided: that the semantic criterion accepts the generated object.',
+              'template/command table cross-check + regular-language inclusion between writer formats and reader regexes (decided on automata in the analyser)'),
     'C14': _t('Decides: totalisation twin, reachability search discipline, operands untouched / not shared. Not decided: language identities of the constructions.',
               'twin rule + level-synchronous search rule + effect summaries'),
     'C15': _t('Decides: epsilon-path searches terminate and write each backpointer once (acyclic predecessor map). Not decided: legality of each row, derivation order.',
               'worklist first-visit / backpointer rule on CFG guards'),
+    'C16': _t('Decides: keyword agreement, label layout roles/arity/regex length, operator tokens and precedence order vs grammar alternatives, symbol class vs IDENTIFIER, CFG epsilon spelling, generated parser tables vs .g4, declared-vs-empty. Not decided: field-by-field equality of the re-parsed object.',
+              'writer/reader table agreement + regex inclusion + grammar cross-check'),
+    'C17': _t('Decides: must-pass-through of every builder check before construction, guard polarity of each check, duplicate-check dominance of every keyword store, validating constructors, invariant atoms, declared-vs-empty, label decoding roles. Not decided: that every ill-formed text is rejected.',
+              'CFG dominance / must-pass-through + guard-polarity extraction + sibling agreement of the four builders'),
     'C18': _t('Decides: operands of union/concatenation/star are not mutated at any depth. Not decided: the language identities.',
               'alias/effect summaries'),
     'C19': _t('Decides: no value-returning operation mutates an operand at any depth; no result shares an in-place-mutable field with an argument; no hidden defaultdict insertion; twin pairing; no unconditional self-recursion. Not decided: language equality across iteration orders.',
